@@ -21,6 +21,7 @@ SPEC = dict(
         dict(name="pebble", pkg="c11_robust", test="TestRobustPebble", checks=9000, shards=5),
         dict(name="multipart", pkg="c11_robust", test="TestRobustMultiPartition", checks=8000, shards=3),
         dict(name="known", pkg="c11_robust", test="TestKnown.*", checks=1, shards=1),
+        dict(name="fuzz", pkg="c11_robust", fuzz="FuzzRobust", fuzztime="150s", parallel=12),
     ],
 )
 TEXT = dict(
@@ -28,5 +29,5 @@ TEXT = dict(
     design_ref="DESIGN.md §4 C11",
     technique="mutation-based property testing (rapid) through the real client entry point with a twin-store differential oracle (store with vs without the failed commands) and apply-path panic detection",
     level_text="Generated-input exploration: mutated argument vectors of every registered command are sent the way a client sends them; an apply-path panic, a process death, a malformed reply or any difference to a twin store that never saw the failed commands is a violation. Found and repaired three crashes (SETRANGE negative offset, SCAN COUNT -1, SETBIT after an expired bitmap).",
-    level_note="Trusted: the fake single-replica raft (apply happens inside propose, so an apply-path panic is detected by a flag set in the harness's recover, not by process death), the dump command list. The native fuzz target of the design is not built; the rapid generator is the only driver.",
+    level_note="Trusted: the fake single-replica raft (apply happens inside propose, so an apply-path panic is detected by a flag set in the harness's recover, not by process death), the dump command list. The thorough tier adds a coverage-guided native fuzz campaign over the same property (rapid.MakeFuzz: the fuzz bytes are the bitstream the generator draws from).",
 )
